@@ -1452,7 +1452,9 @@ func (fr *Frame) siteMayBeInLoop(li *loopInfo, atSite string) bool {
 			return true
 		}
 		name := site
+		ord := "*"
 		if i := strings.LastIndex(name, "#"); i >= 0 {
+			ord = name[i+1:]
 			name = name[:i]
 		}
 		name = strings.TrimPrefix(name, "call:")
@@ -1472,10 +1474,16 @@ func (fr *Frame) siteMayBeInLoop(li *loopInfo, atSite string) bool {
 				}
 				sn := shortCallee(cc)
 				if sn == name {
-					return true
+					// a specific ordinal names one call instruction
+					if ord == "*" || ord == fmt.Sprint(fr.siteOrd("call:"+sn, in)) {
+						return true
+					}
+					continue
 				}
 				if d := strings.Index(sn, "."); d > 0 && name == sn[:d]+".*" {
-					return true
+					if k, ok := fr.recvOrds[in]; ord == "*" || (ok && ord == fmt.Sprint(k)) {
+						return true
+					}
 				}
 			}
 		}
